@@ -1021,4 +1021,6 @@ def check(rep, F, tier, replay=None):
     rule_json_valid(rep, F)
     rule_size_field(rep, F, cddl)
     rule_int_width(rep, F, cddl)
+    from ruleutil import datum_rules
+    datum_rules(rep, F)  # set-typed fields (tag 258 datums / scripts) hold every element once: identity and totality of the de-duplication
     return rep.finish(EXPLANATION, ASSUMPTIONS, trusted_base=["csl-facts driver (HIR/MIR dump of the type-checked crate)", "tables/conway_cddl.json (CDDL transcription)", "tables/e2_audited.json", "tables/body_origins.json", "cbor_event head encoding"])
